@@ -86,3 +86,18 @@ CLAIMED["C11"] = {
 }
 NA.pop("C11", None)
 NA["C09"] = "attempted on the real BackwardEngine::query with the rsym engine (checks/c09.py, checks/bwdcore.py): one symbolic rule decides in ~70 s but covers no chain/shared-sub-goal shape; two symbolic rules did not return within 25 min (40 min with symbolic strategy). The smallest meaningful bound (3 rules: two sub-goals proved, parent fails) is out of reach"
+CLAIMED["C20"] = {
+    "text": "File backend, both sentences, over a MODELLED file system: bounded symbolic model checking of the REAL StateStore (with_config, put, put_with_ttl, update, delete, get, checkpoint, restore; StateEntry::new/is_expired/update). (a) Restore clause: every history of K operations with symbolic arguments over two keys, each preceded by an arbitrary wall-clock advance >= 0 ms (0 = same millisecond); after every operation get(k) must equal a reference that on restore(j) becomes exactly the unexpired keys/values held when checkpoint j was taken; checkpoint/restore of an existing id must succeed. (b) Crash clause: after such a history one more checkpoint is interrupted at a symbolic file-system mutation (cut write_all leaves an unparseable prefix, later mutations never happen), a fresh StateStore is opened on the same directory; restoring any earlier checkpoint must succeed with the state at its checkpoint time, restoring the interrupted one must give an error or its complete state. Counterexamples are replayed against the real crate on a real temporary directory (crash emulated by truncating the interrupted state.json at every byte length / removing it).",
+    "note": "std::fs, File, Path, serde_json and SystemTime::now are modelled (DESIGN.md 4.1): path->content map, exact JSON round trip, truncated text does not parse, clock frozen within an operation. NOT covered: retention eviction (max_checkpoints larger than the history), Redis/Custom backends, auto-checkpointing, torn directory metadata, restart within the millisecond of an earlier checkpoint. Trusted: rsym + library model, z3, reference model. Bounded in K.",
+}
+NA.pop("C20", None)
+CLAIMED["C16"] = {
+    "text": "Three of the four clauses, each on the REAL code against the plain computation, bounded symbolic model checking over histories of K operations with values symbolic over a candidate set built from printed-form collisions (Integer 1 / Float 1.0 / String \"1\", \"1.0\", \"NaN\", \"Integer(1)\"), signed zeros, NaN, booleans, null and arrays: (alpha) AlphaMemoryIndex insert/create_index/drop_index/filter/filter_tracked vs `fact.get(field) == Some(value)`; (beta) BetaMemoryIndex add/remove/lookup vs the live facts whose join-key value renders as the key; (conclusion index) ConclusionIndex add_rule/remove_rule/find_candidates proposes every indexed enabled rule with a Set action on the goal's field.",
+    "note": "NOT covered: the memoisation clause (MemoizedEvaluator keys are DefaultHasher outputs: no model), auto_tune/statistics, MethodCall/Retract conclusions, BackwardEngine::find_candidate_rules' linear fallback. format!(\"{:?}\", FactValue) is modelled as derive(Debug) output. Finite candidate set. Trusted: rsym + library model, z3, reference. Bounded in K.",
+}
+NA.pop("C16", None)
+CLAIMED["C14"] = {
+    "text": "Bounded symbolic model checking of the REAL StreamJoinNode (process_left, process_right, update_watermark, is_within_window, evict_expired_events, generate_event_id; JoinType::Inner, JoinStrategy::TimeWindow): every history of K steps, each symbolically a left arrival, a right arrival or a watermark advance, with symbolic timestamps, join keys (incl. no key), window length and an arbitrary symbolic join-condition relation; over the whole run every emitted pair must satisfy the join and be emitted at most once (always), and every joining pair must be emitted when no watermark advance came within eviction distance of an arrived event. Quantifying over all side-tagged arrival sequences covers all pairs of per-stream sequences and all their merges; exactness makes the result independent of the interleaving.",
+    "note": "K = 3 steps only (the solver did not finish K = 4 within 25 min): far below the 4+4 events of the property's quantifier. Key extractors / join condition are harness callbacks; ids unique per arrival; outer joins, count/session windows and join_manager routing outside. Trusted: rsym + library model (injective coding of format!(\"{}_{}\", id, ts)), z3, reference. ",
+}
+NA.pop("C14", None)
